@@ -306,7 +306,7 @@ class EsDevice:
 class Rig:
     """An inverter object wired to a device model on a KLoop."""
 
-    def __init__(self, family, dev, transport='udp', T=1, R=0, ka=False, ctx=None, world=None, keep_world=False):
+    def __init__(self, family, dev, transport='udp', T=1, R=0, ka=False, ctx=None, world=None, keep_world=False, comm_addr=0):
         from . import world as W
         from .kernel import KLoop
         if not keep_world:      # keep_world: a further object in the same process state (neighbours, pairs)
@@ -314,7 +314,7 @@ class Rig:
         self.dev = dev
         self.loop = KLoop(dev, ctx=ctx)
         port = 502 if transport == 'tcp' else 8899
-        self.inv = W.FAMILIES[family]('10.0.0.2', port, 0, T, R)
+        self.inv = W.FAMILIES[family]('10.0.0.2', port, comm_addr, T, R)
         self.inv.set_keep_alive(ka)
 
     def newloop(self):
